@@ -307,6 +307,122 @@ Proof.
   destruct (Hlen l _ _ R) as [A B]. rewrite A, B. simpl. rewrite map_length. exact Hc.
 Qed.
 
+(* ---- termination: every step strictly decreases the number of sends and receives still to come ---- *)
+Definition prem (m : nat) (p : prod) : nat := match left p with 0 => 0 | S k => k * m + length (ptodo p) end.
+Fixpoint psum (m : nat) (l : list prod) : nat := match l with [] => 0 | p :: r => prem m p + psum m r end.
+Fixpoint tsum (l : list prod) : nat := match l with [] => 0 | p :: r => total p + tsum r end.
+Definition measure (m : nat) (s : st) : nat := psum m (prods s) + (tsum (prods s) - crounds s) * m + length (ctodo s).
+
+Lemma psum_updl m l : forall i p p', nth_error l i = Some p -> psum m (updl i p' l) + prem m p = psum m l + prem m p'.
+Proof.
+  induction l as [|x l IH]; intros [|i] p p' H; simpl in *; try discriminate.
+  - injection H as ->. lia.
+  - specialize (IH i p p' H). lia.
+Qed.
+
+Lemma tsum_updl l : forall i p p', nth_error l i = Some p -> total p' = total p -> tsum (updl i p' l) = tsum l.
+Proof.
+  induction l as [|x l IH]; intros [|i] p p' H E; simpl in *; try discriminate.
+  - injection H as ->. lia.
+  - rewrite (IH i p p' H E). reflexivity.
+Qed.
+
+Lemma length_of_perm (l : list nat) m : NoDup l -> (forall ch, In ch l <-> ch < m) -> length l = m.
+Proof.
+  intros N H. apply Nat.le_antisymm.
+  - replace m with (length (seq 0 m)) by apply seq_length. apply NoDup_incl_length; auto.
+    intros x Hx. apply in_seq. apply H in Hx. lia.
+  - replace m with (length (seq 0 m)) by apply seq_length. apply NoDup_incl_length; [apply seq_NoDup|].
+    intros x Hx. apply in_seq in Hx. apply H. lia.
+Qed.
+
+Lemma sumsent_le_tsum m l ch : ch < m -> Forall (pok m) l -> sumsent l ch <= tsum l.
+Proof.
+  intros Hch F. induction F as [|p l Pk F IH]; simpl; auto. destruct Pk as [Np [Mp [Lp [Sp [Nep Zp]]]]].
+  unfold sent. pose proof (ind_le1 ch (ptodo p)).
+  destruct (Nat.eq_dec (left p) 0) as [E|E].
+  - rewrite (Zp E). rewrite ind_in by (apply Mp; exact Hch). lia.
+  - lia.
+Qed.
+
+(* the consumer never completes more rounds than the producers have items for *)
+Lemma crounds_le m s : Inv m s -> crounds s + (if Nat.eqb (length (ctodo s)) m then 0 else 1) <= tsum (prods s).
+Proof.
+  intros [Hm [Nc Mc] [Sf Ne] Hp Hq].
+  assert (B : forall l ch, ch < m -> Forall (pok m) l -> sumsent l ch <= tsum l).
+  { intros l ch Hch F. induction F as [|p l Pk F IH]; simpl; auto. destruct Pk as [Np [Mp [Lp [Sp [Nep Zp]]]]].
+    unfold sent. pose proof (ind_le1 ch (ptodo p)).
+    destruct (Nat.eq_dec (left p) 0) as [E|E].
+    - rewrite (Zp E). rewrite ind_in by (apply Mp; exact Hch). lia.
+    - lia. }
+  destruct (Nat.eqb_spec (length (ctodo s)) m) as [E|E].
+  - (* at the start of a round *) destruct (ctodo s) as [|c0 r] eqn:Ht; [congruence|].
+    assert (Hc : c0 < m) by (apply Mc; eapply suffix_in; exact Sf).
+    pose proof (Hq c0 Hc) as Q. unfold rcvd in Q. rewrite Ht in Q. rewrite ind_in in Q by (left; reflexivity).
+    pose proof (B (prods s) c0 Hc Hp). lia.
+  - (* in the middle of a round: some channel of the consumer's order has been received already *)
+    destruct Sf as [pre Epre]. pose proof (length_of_perm (corder s) m Nc Mc) as Lc.
+    destruct pre as [|c0 pre'].
+    + simpl in Epre. rewrite Epre in Lc. congruence.
+    + assert (Hin : In c0 (corder s)) by (rewrite Epre; left; reflexivity).
+      assert (Hc : c0 < m) by (apply Mc; exact Hin).
+      assert (Hnot : ~ In c0 (ctodo s)).
+      { rewrite Epre in Nc. simpl in Nc. inversion Nc; subst. intros H. apply H1. apply in_or_app. right. exact H. }
+      pose proof (Hq c0 Hc) as Q. unfold rcvd in Q. rewrite ind_notin in Q by exact Hnot.
+      pose proof (B (prods s) c0 Hc Hp). lia.
+Qed.
+
+Theorem fanin_step_decreases m s a s' : Inv m s -> step s a = Some s' -> measure m s' < measure m s.
+Proof.
+  intros I H. pose proof I as [Hm [Nc Mc] [Sf Ne] Hp Hq]. unfold measure. destruct a as [i|]; simpl in H.
+  - destruct (nth_error (prods s) i) as [p|] eqn:Hi; [|discriminate].
+    destruct (left p) as [|k] eqn:Hl; [discriminate|].
+    destruct (ptodo p) as [|ch0 rest] eqn:Ht; [discriminate|].
+    destruct (Nat.ltb (q s ch0) (cap s)); [|discriminate]. injection H as <-. simpl.
+    pose proof (nth_forall _ _ _ _ Hp Hi) as [Np [Mp _]]. pose proof (length_of_perm (po p) m Np Mp) as Lp.
+    destruct rest as [|c2 r2].
+    + pose proof (psum_updl m (prods s) i p {| po := po p; total := total p; left := k; ptodo := po p |} Hi) as E.
+      rewrite (tsum_updl (prods s) i p {| po := po p; total := total p; left := k; ptodo := po p |} Hi eq_refl).
+      unfold prem in E. simpl in E. rewrite Hl, Ht in E. simpl in E. destruct k; simpl in E; lia.
+    + pose proof (psum_updl m (prods s) i p {| po := po p; total := total p; left := S k; ptodo := c2 :: r2 |} Hi) as E.
+      rewrite (tsum_updl (prods s) i p {| po := po p; total := total p; left := S k; ptodo := c2 :: r2 |} Hi eq_refl).
+      unfold prem in E. simpl in E. rewrite Hl, Ht in E. simpl in E. lia.
+  - destruct (ctodo s) as [|ch0 rest] eqn:Ht; [discriminate|].
+    destruct (q s ch0) as [|n] eqn:Q0; [discriminate|]. injection H as <-. simpl.
+    assert (Hc0 : ch0 < m) by (apply Mc; eapply suffix_in; exact Sf).
+    pose proof (Hq ch0 Hc0) as Q. unfold rcvd in Q. rewrite Ht, Q0 in Q. rewrite ind_in in Q by (left; reflexivity).
+    pose proof (sumsent_le_tsum m (prods s) ch0 Hc0 Hp) as B.
+    pose proof (length_of_perm (corder s) m Nc Mc) as Lc.
+    destruct rest as [|c2 r2]; simpl.
+    + rewrite Lc. nia.
+    + lia.
+Qed.
+
+(* with fanin_no_deadlock: a run that cannot be extended has sent and received everything *)
+Theorem fanin_maximal_run_completes m ps co cp l s :
+  wf_in m ps co -> length ps <= cp -> run (init ps co cp) l = Some s -> (forall a, step s a = None) ->
+  Forall (fun p => left p = 0) (prods s) /\ forall ch, ch < m -> q s ch = 0.
+Proof.
+  intros W Hc R Hmax.
+  assert (D : forall P : Prop, (~ ~ P) -> (P \/ ~ P) -> P) by tauto.
+  assert (Dec : finished m s \/ ~ finished m s).
+  { unfold finished.
+    assert (D1 : Forall (fun p => left p = 0) (prods s) \/ ~ Forall (fun p => left p = 0) (prods s)).
+    { destruct (all_left_zero_or (prods s)) as [Z|[i [p [Hi Hp]]]]; [left; exact Z|].
+      right. intros F. apply Hp. rewrite Forall_forall in F. apply F. eapply nth_error_In; eauto. }
+    assert (D2 : (forall ch, ch < m -> q s ch = 0) \/ ~ (forall ch, ch < m -> q s ch = 0)).
+    { clear. induction m as [|m IH].
+      - left. intros ch H. lia.
+      - destruct IH as [IH|IH].
+        + destruct (Nat.eq_dec (q s m) 0) as [E|E].
+          * left. intros ch H. destruct (Nat.eq_dec ch m) as [->|Hne]; auto. apply IH. lia.
+          * right. intros H. apply E. apply H. lia.
+        + right. intros H. apply IH. intros ch Hch. apply H. lia. }
+    tauto. }
+  destruct Dec as [F|NF]; [exact F|].
+  exfalso. destruct (fanin_no_deadlock m ps co cp l s W Hc R NF) as [a Ha]. apply Ha, Hmax.
+Qed.
+
 (* non-vacuity: the configuration of finding D21 with capacity 2 satisfies the hypotheses *)
 Example fanin_wf_example : wf_in 3 [([0; 1; 2], 1); ([1; 0; 2], 1)] [2; 0; 1] /\ length [([0; 1; 2], 1); ([1; 0; 2], 1)] <= 2.
 Proof.
